@@ -327,6 +327,10 @@ def _nc(rule):
     return any(w & (w + 1) for cubes in (rule.src, rule.dst) for _, w in cubes)
 
 
+def _members_of(ace):
+    return tuple(tuple(m.line for m in getattr(ace, side).items) for side in ("srcaddr", "dstaddr"))
+
+
 def _case(describe, **extra):
     d = dict(describe())
     d.setdefault("kind", "pair")
@@ -341,6 +345,7 @@ def check_pair(top, bot, rt, rb, describe, ctx, exact):
     """
     covered = rb.action == rt.action and rule_subset(rb, rt)
     answers = []
+    snap = (top.line, bot.line, _members_of(top), _members_of(bot))
     for skip in P.SKIPS:
         ctx.ev()
         try:
@@ -358,6 +363,11 @@ def check_pair(top, bot, rt, rb, describe, ctx, exact):
             ctx.viol(f"Ace.shadow_of:unsound:{_which_field(rt, rb)}",
                      _case(describe, skip=skip), True, f"False ({why})",
                      kf=_kf_unsound(rt, rb))
+    # a query: neither operand may be modified by it
+    if (top.line, bot.line, _members_of(top), _members_of(bot)) != snap:
+        ctx.viol("Ace.shadow_of:operand_modified", _case(describe),
+                 (top.line, bot.line, _members_of(top), _members_of(bot)), snap)
+        return
     # monotonicity: adding skip options can only turn True into False
     none, ag, nc, both1, both2 = answers
     for small, big, name in ((none, ag, "addrgroup"), (none, nc, "nc_wildcard"),
